@@ -5,7 +5,7 @@ package core
 // literal arrays and literal ranges, constant ranges, calls of functions that may be marked ConstExpr.
 
 // PureFns are the environment functions whose result depends on their arguments only.
-var PureFns = []string{"Sq", "Div", "Rep", "Neg", "IsPos", "Pick", "Join", "Half", "Len2", "Sum", "Coalesce"}
+var PureFns = []string{"Sq", "Div", "Rep", "Neg", "IsPos", "Pick", "Join", "Half", "Len2", "Sum", "Coalesce", "PickE", "NilMask", "MkElem", "FirstOf", "CountAny"}
 
 var constInts = []int{0, 1, 2, 3, 4, 5, 7, 10, 100, 1000, 65535, 65536, 999999, 1000000, 1000001, 2147483647, 4294967296, 9223372036854775807}
 
@@ -84,7 +84,28 @@ func (g *Gen) constNeedle(d int, forRange bool, strElems bool) *X {
 		g.Excluded["in-array-type"]++
 		return []*X{Var("S", TStr), Var("S2", TStr), LitStr("a"), Bin("+", Var("S", TStr), LitStr("b"), TStr)}[g.pick(4, "cnstr")]
 	}
-	switch g.pick(12, "cnk") {
+	k := g.pick(14, "cnk")
+	if k >= 12 && !g.Nil {
+		k -= 12
+	}
+	switch k {
+	case 12:
+		// a nil-safe chain: statically int / string, nil at run time for a nil receiver
+		if strElems {
+			x := Field(Var("P", TPElem), "Name", TStr)
+			x.NilSafe = true
+			return x
+		}
+		return []*X{g.nilSafeInt(0), g.nilSafeInt(1), g.nilSafeInt(2)}[g.pick(3, "cnns")]
+	case 13:
+		// a conditional with a nil branch: typed by its other branch
+		if strElems {
+			return Cond(g.Leaf(TBool), LitStr("a"), LitNil(), TStr)
+		}
+		if g.coin("cnnilside") {
+			return Cond(g.Leaf(TBool), LitNil(), g.Leaf(TInt), TInt)
+		}
+		return Cond(g.Leaf(TBool), g.Leaf(TInt), LitNil(), TInt)
 	case 10, 11:
 		// arithmetic / conditional mixing an int literal with an operand of another kind: the checker's
 		// static type for it can be int although the value is not (finding F26's region)
@@ -143,15 +164,61 @@ func (g *Gen) constMembership(d int) *X {
 		for i := 0; i < n; i++ {
 			arr.A = append(arr.A, g.ConstInt(g.pick(2, "cmad")))
 		}
-		return Bin(op, g.fixIntArrayNeedle(g.constNeedle(d-1, false, false), arr), arr, TBool)
+		return Bin(op, g.fixNilNeedle(g.fixIntArrayNeedle(g.constNeedle(d-1, false, false), arr), arr), arr, TBool)
 	default:
 		n := 1 + g.pick(4, "cmsn")
 		arr := Arr(SeqOf(TStr, RepIface))
 		for i := 0; i < n; i++ {
 			arr.A = append(arr.A, g.ConstStr(g.pick(2, "cmsd")))
 		}
-		return Bin(op, g.constNeedle(d-1, false, true), arr, TBool)
+		return Bin(op, g.fixNilNeedle(g.constNeedle(d-1, false, true), arr), arr, TBool)
 	}
+}
+
+func (g *Gen) nilSafeInt(k int) *X {
+	switch k {
+	case 0:
+		x := Field(Var("P", TPElem), "V", TInt)
+		x.NilSafe = true
+		return x
+	case 1:
+		a := Field(Var("PN", TPNest), "PE", TPElem)
+		a.NilSafe = true
+		b := Field(a, "V", TInt)
+		b.NilSafe = true
+		return b
+	}
+	a := Field(Var("N", TNested), "PE", TPElem)
+	b := Field(a, "V", TInt)
+	b.NilSafe = true
+	return b
+}
+
+// MayBeNilTyped: the expression has a static int / string type for the checker but can be nil at run time (a
+// nil-safe chain, a conditional with a nil branch).
+func MayBeNilTyped(x *X) bool {
+	return x.Has(func(n *X) bool {
+		if n.NilSafe {
+			return true
+		}
+		return (n.K == "cond" || n.K == "elvis") && (n.A[len(n.A)-1].Ty.K == KNil || n.A[1].Ty.K == KNil)
+	})
+}
+
+// fixNilNeedle applies the exclusion of known finding "in-array-nil-needle": in_array turns `x in [1, 2]` into a
+// map lookup when x is statically int / string; a nil x then fails where the array form answers false.
+func (g *Gen) fixNilNeedle(needle, hay *X) *X {
+	if !g.Excl["in-array-nil-needle"] || hay.K != "arr" || len(hay.A) == 0 || !MayBeNilTyped(needle) {
+		return needle
+	}
+	g.Excluded["in-array-nil-needle"]++
+	saved := g.ConstBias
+	g.ConstBias = 0
+	defer func() { g.ConstBias = saved }()
+	if needle.Ty.K == KStr {
+		return g.Leaf(TStr)
+	}
+	return g.Leaf(TInt)
 }
 
 // argument of a pure call: constant, foldable or non-constant
@@ -209,6 +276,53 @@ func (g *Gen) PureCall(ty *Ty, d int) *X {
 			x.A = append(x.A, []*X{LitNil(), LitInt(7), LitStr("z")}[g.pick(3, "pccxa")])
 		}
 		return x
+	}
+	if g.Nil && g.pick(5, "pcnilfn") == 0 {
+		nilOr := func(alt *X, l string) *X {
+			if g.coin(l) {
+				return LitNil()
+			}
+			return alt
+		}
+		switch ty.K {
+		case KInt:
+			switch g.pick(4, "pcn") {
+			case 0:
+				return Call("NilMask", TInt, nilOr(LitInt(1), "nm0"), nilOr(LitStr("a"), "nm1"), nilOr(Var("P", TPElem), "nm2"))
+			case 1:
+				return Field(Call("MkElem", TElem, g.pureIntArg(d-1)), "V", TInt)
+			case 2:
+				return Len(Field(Call("MkElem", TElem, LitInt(g.pick(4, "mke"))), "Tags", TStrs))
+			default:
+				// an array literal is []interface{}; a constant one is folded to []int / []string
+				arr := g.constIntArray(d - 1)
+				if g.Excl["const-array-arg"] && len(arr.A) > 0 && allOf(arr.A, isConstInt) {
+					g.Excluded["const-array-arg"]++
+					arr.A = append(arr.A, Var("I", TInt))
+				}
+				return Call("CountAny", TInt, arr)
+			}
+		case KBool:
+			op := []string{"==", "!="}[g.pick(2, "pcneq")]
+			switch g.pick(3, "pcnb") {
+			case 0:
+				a := []*X{LitNil(), Var("P", TPElem)}
+				if g.Excl["nil-to-pointer-param"] {
+					a = a[1:]
+				}
+				return Bin(op, Call("PickE", TPElem, a[g.pick(len(a), "pe0")], a[g.pick(len(a), "pe1")]), LitNil(), TBool)
+			case 1:
+				return Bin(op, Call("FirstOf", TNil, nilOr(LitInt(2), "fo0"), nilOr(LitStr("b"), "fo1")), LitNil(), TBool)
+			default:
+				x := Call("Coalesce", TNil)
+				for i, n := 0, g.pick(3, "conil"); i < n; i++ {
+					x.A = append(x.A, LitNil())
+				}
+				return Bin(op, x, LitNil(), TBool)
+			}
+		case KStr:
+			return Field(Call("MkElem", TElem, g.pureIntArg(d-1)), "Name", TStr)
+		}
 	}
 	switch ty.K {
 	case KInt:
